@@ -2,12 +2,21 @@
 package main
 
 import (
+	"context"
 	"encoding/json"
 	"flag"
 	"fmt"
+	"io"
+	"sync"
+	"time"
 
+	p2ptls "github.com/aperturerobotics/bifrost/crypto/tls"
+	"github.com/aperturerobotics/bifrost/link"
 	"github.com/aperturerobotics/bifrost/peer"
+	transport_quic "github.com/aperturerobotics/bifrost/transport/common/quic"
 	"github.com/aperturerobotics/bifrost/transport/webrtc"
+	"github.com/aperturerobotics/bifrost/util/rwc"
+	"github.com/sirupsen/logrus"
 
 	"verifharness/internal/vio"
 )
@@ -28,6 +37,116 @@ func signalOf(kind string, r int) *webrtc.WebRtcSignal {
 	return &webrtc.WebRtcSignal{Body: &webrtc.WebRtcSignal_RequestOffer{RequestOffer: 0}}
 }
 
+// memChan is one end of an in-memory message-oriented data channel.
+type memChan struct {
+	rx, tx chan []byte
+	once   *sync.Once
+	closed chan struct{}
+}
+
+func newChanPair() (*memChan, *memChan) {
+	a, b := make(chan []byte, 256), make(chan []byte, 256)
+	once, closed := &sync.Once{}, make(chan struct{})
+	return &memChan{rx: a, tx: b, once: once, closed: closed}, &memChan{rx: b, tx: a, once: once, closed: closed}
+}
+func (c *memChan) Read(p []byte) (int, error) {
+	select {
+	case m := <-c.rx:
+		return copy(p, m), nil
+	case <-c.closed:
+		return 0, io.EOF
+	}
+}
+func (c *memChan) Write(p []byte) (int, error) {
+	select {
+	case c.tx <- append([]byte(nil), p...):
+		return len(p), nil
+	case <-c.closed:
+		return 0, io.ErrClosedPipe
+	}
+}
+func (c *memChan) ReadDataChannel(p []byte) (int, bool, error) {
+	n, err := c.Read(p)
+	return n, false, err
+}
+func (c *memChan) WriteDataChannel(p []byte, _ bool) (int, error) { return c.Write(p) }
+func (c *memChan) Close() error                                   { c.once.Do(func() { close(c.closed) }); return nil }
+
+type linkRec struct {
+	mu  sync.Mutex
+	est []link.Link
+}
+
+func (h *linkRec) HandleLinkEstablished(l link.Link) {
+	h.mu.Lock()
+	h.est = append(h.est, l)
+	h.mu.Unlock()
+}
+func (h *linkRec) HandleLinkLost(l link.Link) {}
+
+// runLink: the real session's executeLink over an in-memory data channel; the other end authenticates as the signaled peer or as another key.
+func runLink(i int, role, auth string, rep int) map[string]any {
+	o := map[string]any{"i": i}
+	lg := logrus.New()
+	lg.SetOutput(io.Discard)
+	le := logrus.NewEntry(lg)
+	ctx, cancel := context.WithTimeout(context.Background(), 4*time.Second)
+	defer cancel()
+	// choose seeded keys L (local) and M (signaled) such that L has the requested role
+	var ln, mn string
+	for k := 0; ; k++ {
+		ln, mn = fmt.Sprintf("webrtc/link/L%d-%d", rep, k), fmt.Sprintf("webrtc/link/M%d-%d", rep, k)
+		if webrtc.VerifIsOfferer(vio.PeerID(ln).String(), vio.PeerID(mn).String()) == (role == "offerer") {
+			break
+		}
+	}
+	idL, idM := vio.PeerID(ln), vio.PeerID(mn)
+	otherKey := vio.Key(mn)
+	if auth == "other" {
+		otherKey = vio.Key(fmt.Sprintf("webrtc/link/K%d", rep))
+	}
+	otherID, _ := peer.IDFromPrivateKey(otherKey)
+	h := &linkRec{}
+	w, err := webrtc.NewWebRTC(ctx, le, nil, &webrtc.Config{}, vio.Key(ln), h)
+	if err != nil {
+		vio.Fatal("%v", err)
+	}
+	dcL, dcO := newChanPair()
+	defer dcL.Close()
+	go func() { _, _ = w.VerifExecuteLink(ctx, idM.String(), dcL) }()
+	ident, _ := p2ptls.NewIdentity(otherKey)
+	pc := rwc.NewRwcPacketConn(dcO, peer.NewNetAddr(otherID), peer.NewNetAddr(idL))
+	opts := &transport_quic.Opts{DisableDatagrams: true, DisableKeepAlive: true, DisablePathMtuDiscovery: true}
+	hctx, hcancel := context.WithTimeout(ctx, 1500*time.Millisecond)
+	defer hcancel()
+	if role == "offerer" {
+		// the local session listens; the other end dials
+		if conn, _, err := transport_quic.DialSession(hctx, le, opts, pc, ident, peer.NewNetAddr(idL), idL); err == nil {
+			defer conn.CloseWithError(0, "")
+		}
+	} else {
+		if conn, err := transport_quic.ListenSession(hctx, le, opts, pc, ident, ""); err == nil {
+			defer conn.CloseWithError(0, "")
+		}
+	}
+	time.Sleep(150 * time.Millisecond)
+	h.mu.Lock()
+	o["links"] = len(h.est)
+	o["remote"] = ""
+	if len(h.est) > 0 {
+		switch h.est[0].GetRemotePeer() {
+		case idM:
+			o["remote"] = "signaled"
+		case otherID:
+			o["remote"] = "other"
+		default:
+			o["remote"] = "?"
+		}
+	}
+	h.mu.Unlock()
+	return o
+}
+
 func main() {
 	mode := flag.String("mode", "signal", "")
 	_ = flag.String("name", "", "ignored")
@@ -38,6 +157,19 @@ func main() {
 	rng := vio.Rand("webrtc")
 	for i, raw := range vio.ReadCases(*cases) {
 		o := map[string]any{"i": i}
+		if *mode == "link" {
+			var w struct {
+				In struct {
+					Role, Auth string
+					Rep        int
+				}
+			}
+			if err := json.Unmarshal(raw, &w); err != nil {
+				vio.Fatal("%v", err)
+			}
+			out.Emit(runLink(i, w.In.Role, w.In.Auth, w.In.Rep))
+			continue
+		}
 		if *mode == "offerer" {
 			var c struct{ A, B string }
 			_ = json.Unmarshal(raw, &c)
